@@ -209,6 +209,7 @@ func c01ExtraSpecs(c *core.Check, rng *rand.Rand) ([]*aspec.ASpec, []string) {
 		sd := rng.Int63()
 		seeds = append(seeds, sd)
 		a := wireCarrier(fmt.Sprintf("op%d", k), aspec.Base{Form: "none"})
+		a.NoComposite = true
 		w := randWireOp(a, k, rand.New(rand.NewSource(sd)))
 		ops = append(ops, w)
 		a.Paths = []aspec.PathItem{{Template: w.tmpl, Ops: []aspec.Op{w.op}}}
@@ -236,6 +237,7 @@ func c01ExtraSpecs(c *core.Check, rng *rand.Rand) ([]*aspec.ASpec, []string) {
 	}
 	for start := 0; start+15 <= len(good); start += 15 {
 		a := wireCarrier(fmt.Sprintf("compose%d", start/15), baseForms()[(start/15)%len(baseForms())])
+		a.NoComposite = true
 		for _, k := range good[start : start+15] {
 			w := randWireOp(a, k, rand.New(rand.NewSource(seeds[k])))
 			a.Paths = append(a.Paths, aspec.PathItem{Template: w.tmpl, Ops: []aspec.Op{w.op}})
